@@ -1,5 +1,5 @@
 """C04 - each computation runs at most once, and only on demand."""
-from ..store_check import run_families, validate_recorded
+from ..store_check import scaled, run_families, validate_recorded
 
 RELEVANT = {'runs', 'error'}
 
@@ -32,18 +32,7 @@ def plans(quick):
                  sim=dict(num=60, depth=10, force=False, fail=False)),
             dict(family='names', name_mode=True, gen=dict(steps=4, slots=1, rcs=['model', 'model.large', 'top1'], lists=[['model'], ['model.large'], ['top1']], force=False, fail=False), cover_limit=100, walks=40, sim=dict(num=80, depth=10, force=False, fail=False)),
         ]
-    return [
-        dict(family='names', name_mode=True, checks=[dict(steps=5, slots=2, force=False, fail=False, count=True)], gen=dict(steps=4, slots=1, force=False), walks=200, sim=dict(num=600, depth=14)),
-        dict(family='chain', gen=dict(steps=6, slots=2, rcs=['r1'], lists=[['r1']], force=False, fail=False, restart=False)),
-        dict(family='pair', gen=dict(steps=6, slots=2, force=False, fail=False), walks=8000, walk_len=7),
-        dict(family='kinds', checks=[dict(steps=5, slots=2, force=False, fail=False, count=True)],
-             gen=dict(steps=4, slots=1, force=False), walks=200, sim=dict(num=800, depth=14)),
-    ] + [
-        dict(family=f,
-             checks=[dict(steps=8, slots=2, force=False, fail=False, count=True), dict(steps=5, slots=2, count=True)],
-             gen=dict(steps=(4 if f == 'chain' else 5), slots=1, force=False), walks=300, walk_len=16, sim=dict(num=700, depth=18))
-        for f in ('chain', 'mounts', 'diamond')
-    ]
+    return scaled(plans(True), 3)
 
 
 def suite_traces(ctx):
